@@ -1,7 +1,7 @@
 (** Protocol operations for C06 (see Lib/Val.v, Run/PbcmplOps.v). *)
 From Coq Require Import ZArith List Bool String.
 From Low Require Import Lib.BitSeq Lib.Bytes Lib.Val Model.Pbcmpl Model.PbcmplWalk Spec.PbcmplSpec Spec.PbcmplWalkSpec
-  Run.PbcmplOps Run.PbcmplWalkOps.
+  Run.PbcmplOps Run.PbcmplWalkOps Run.PbcmplSessionOps.
 Import ListNotations.
 Open Scope string_scope.
 Open Scope Z_scope.
@@ -108,6 +108,76 @@ Definition ops_C06 : list opdef := [
            | Some k, Some ms =>
                match opt_all (map as_msg ms) with
                | Some ms => VL [vzs (wire_of (k_enc k) ms); VL (map v_step (frames_steps (k_enc k) 0 ms)); vzs []]
+               | None => VBad end
+           | _, _ => VBad end
+       | _ => VBad end) |};
+  (* histories: [kind, [[[msg, ...], chunk pattern, eof with last chunk, cut], ...]]: several "connections" in ONE
+     process, one after the other; each marshals its messages into a buffer, keeps the first [cut] bytes (all
+     when cut < 0) and reads with Unmarshal until the first error -> per connection what pbcmpl.Unmarshal/stream
+     reports.  A dropped connection must not influence the next one. *)
+  {| op_name := "pbcmpl.Roundtrip/session";
+     op_run := fun a => match a with
+       | [k; cs] => match as_z k, as_list cs with
+           | Some k, Some cs =>
+               match opt_all (map as_conn cs) with
+               | Some cs => if c06_kind_ok k && forallb conn_ok cs then VL (map (conn_model k) cs) else VBad
+               | None => VBad end
+           | _, _ => VBad end
+       | _ => VBad end;
+     op_spec := fun a obs => match a with
+       | [k; cs] => match as_z k, as_list cs, obs with
+           | Some k, Some cs, VL os =>
+               match opt_all (map as_conn cs) with
+               | Some cs => all2 (conn_spec k) cs os
+               | None => false end
+           | _, _, _ => false end
+       | _ => false end |};
+  (* [kind, [msg, ...], chunk pattern, bufio size]: as pbcmpl.Walk/frames over bufio.NewReaderSize(reader, size);
+     every Header is HELD and inspected only after the whole stream was walked:
+     [[step, ...], [[ver, hsize, bsize] per held header]] *)
+  {| op_name := "pbcmpl.Walk/bufio";
+     op_run := fun a => match a with
+       | [k; ms; pat; bsz] => match as_z k, as_list ms, as_zs pat, as_z bsz with
+           | Some k, Some ms, Some pat, Some bsz =>
+               match opt_all (map as_msg ms) with
+               | Some ms =>
+                   if c06_kind_ok k && forallb msg_ok ms && forallb (walk_body_ok k) ms && all_pos pat && (0 <=? bsz) then
+                     match model_wire k ms with
+                     | None => VPanic
+                     | Some wire =>
+                         match c_Walk (chunks_of pat wire, term_of 0 false) with
+                         | None => VPanic
+                         | Some (steps, _) => v_walkheld steps
+                         end
+                     end
+                   else VBad
+               | None => VBad end
+           | _, _, _, _ => VBad end
+       | _ => VBad end;
+     op_spec := fun_spec (fun a => match a with
+       | [k; ms; pat; bsz] => match as_z k, as_list ms with
+           | Some k, Some ms =>
+               match opt_all (map as_msg ms) with
+               | Some ms => v_walkheld (frames_walk (k_enc k) ms)
+               | None => VBad end
+           | _, _ => VBad end
+       | _ => VBad end) |};
+  (* [kind, [[hasver, ver, count, byte], ...], chunk pattern, eof with last chunk]: pbcmpl.Roundtrip for
+     payloads of [count] times one byte (bodies above 1 MiB), byte strings in run-length form *)
+  {| op_name := "pbcmpl.Roundtrip/big";
+     op_run := fun a => match a with
+       | [k; ms; pat; wl] => match as_z k, as_list ms, as_zs pat, as_bool wl with
+           | Some k, Some ms, Some pat, Some wl =>
+               match opt_all (map as_bigmsg ms) with
+               | Some ms => if c06_kind_ok k && forallb bigmsg_ok ms && all_pos pat then big_roundtrip k ms else VBad
+               | None => VBad end
+           | _, _, _, _ => VBad end
+       | _ => VBad end;
+     op_spec := fun_spec (fun a => match a with
+       | [k; ms; pat; wl] => match as_z k, as_list ms with
+           | Some k, Some ms =>
+               match opt_all (map as_bigmsg ms) with
+               | Some ms => big_roundtrip k ms
                | None => VBad end
            | _, _ => VBad end
        | _ => VBad end) |};
